@@ -582,7 +582,7 @@ pub open spec fn tree_section_suffix(s: Subsystem) -> Seq<char> {
             (r@.len() == 0) <==> all_ready(flags_or_none(final(t).reads.last())),  // @C16.get_provision_failed_state_message.empty_iff_all_ready
 """)
         u.take_fn(pv, "get_provision_state_internal", ghost=TASK_GHOST, pre_body=PRE + "proof { lits_channel(); }",
-                  ghost_calls=[("get_provision_finished", None, "Tracked(t)"), ("get_provision_failed_state_message", None, "Tracked(t)"), ("get_current_secure_channel_state", None, "Tracked(t)")],
+                  ghost_calls=[("get_provision_finished", "all", "Tracked(t)"), ("get_provision_failed_state_message", None, "Tracked(t)"), ("get_current_secure_channel_state", None, "Tracked(t)")],
                   contract="""
         ensures
             final(t).ops == old(t).ops && final(t).deadline_passed == old(t).deadline_passed,
